@@ -1317,7 +1317,11 @@ pub fn explore(r: &Report, subject: Subject, max_depth: usize, wit: &Witnesses) 
                     }
                 }
                 real_ops.fetch_add(path.len() as u64 + 1, Ordering::Relaxed);
-                if real.snapshot().key() != n.key || model != n.model {
+                // re-execution must be deterministic: the reference state always, the complete
+                // concrete state on a fixed quarter of the transitions (a full snapshot is the
+                // most expensive step on the disk subjects)
+                let full_check = (path.len() + op.render().len()) % 4 == 0;
+                if model != n.model || (full_check && real.snapshot().key() != n.key) {
                     real.cleanup();
                     return Err(format!("{t}: re-execution of {:?} is not deterministic", path));
                 }
